@@ -21,7 +21,7 @@ Definition nf_of (l : list (amp * Q)) (a : amp) : Q := nf_lookup l (a_name a).
 
 Definition sel_s (r : res (amp * Q)) (crit : Q) : string :=
   match r with
-  | Err e => append "E:" e
+  | Err e => append "E:" (append e (append "|" (q_s crit)))
   | Ok (s, red) => join "|" [a_name s; q_s red; q_s crit]
   end.
 
@@ -44,7 +44,7 @@ Definition run_node (nd : anode) (prev next : neigh) (bmin bmax maxl gain pt ext
           (append "#"
              (if negb (String.eqb (n_variety nd) "") then "imposed"%string
               else sel_s (auto_select nd prev next bmin bmax maxl gain pt ext (nf_of l) lib)
-                         (Qmin (raman_crit prev maxl) (select_crit ra gain pt ext (restrict_lib r lib))))))).
+                         (select_crit ra gain pt ext (restrict_lib r lib)))))).
 
 (* several calls on candidate dicts drawn from one library: each call lists (index in lib, NF at its gain) *)
 Definition amq (n : string) (multi ram allowed : bool) (fmin fmax gmin gmax pmax : Q) : amp :=
